@@ -592,6 +592,7 @@ static void px_rec_dead(struct urefcount *urefcount)
 struct px_cfg {
     int pool;           /* pool depth of every manager */
     int prepend, append, align; /* block manager; -1 default */
+    struct uprobe *tail_probe;  /* optional application probe placed after all the fixture's probes (the chain takes a reference) */
     int udict_min, udict_extra; /* dictionary manager: initial size and growth step; 0 = the library's defaults. (1, 1) makes every
                                  * attribute that is added a memory request (fault axes) */
 };
@@ -615,7 +616,7 @@ static inline void px_fix_init(struct px_fix *fx, const struct px_cfg *cfg)
     fx->clock.now = 1000000;
     urefcount_init(&fx->clock.urefcount, px_clock_dead);
 
-    struct uprobe *p = NULL;
+    struct uprobe *p = cfg->tail_probe ? uprobe_use(cfg->tail_probe) : NULL;
     p = uprobe_uclock_alloc(p, &fx->clock.uclock);
     p = uprobe_upump_mgr_alloc(p, fx->upump_mgr);
     p = uprobe_ubuf_mem_alloc(p, fx->umem_mgr, cfg->pool, cfg->pool);
